@@ -167,6 +167,15 @@ class Decoder:
                 pkt = self.Packet.from_file(dtm.isoformat(timespec="microseconds"), f"045 {frame}")
             else:
                 pkt = self.Packet.from_dict(dtm.isoformat(timespec="microseconds"), f"045 {frame}")
+            if self.n % 4 == 3:
+                # every fourth decode is the *second* decode of one Packet object (what the object memoised during
+                # the first - header, context, array-ness - must not change the answer), reached through the
+                # header first, as the QoS machinery does
+                try:
+                    _ = pkt._hdr
+                    self.Message(pkt)
+                except Exception:  # noqa: BLE001 - the first answer is not the one recorded here
+                    pass
             msg = self.Message(pkt)
         except Exception as err:  # noqa: BLE001 - a rejected packet is outside C05 (C01 judges the type)
             info["rej"] = type(err).__name__
